@@ -16,6 +16,11 @@ from dippy.core.allowlists import SIMPLE_SAFE, WRAPPER_COMMANDS
 from dippy.cli import get_handler, get_description, HandlerContext
 from dippy.vendor.parable import parse, ParseError
 
+# Stands for "some directory we cannot know" after a directory change that is
+# not a plain `cd <literal>`: relative paths resolved against it match no
+# absolute rule
+_UNKNOWN_CWD = Path("/nonexistent/unknown-cwd")
+
 # Redirect targets that are always safe (no file write)
 SAFE_REDIRECT_TARGETS = frozenset({"/dev/null", "/dev/stdout", "/dev/stdin"})
 
@@ -79,7 +84,35 @@ def _analyze_sequence(
             cd_target = _extract_cd_target(node)
             if cd_target:
                 effective_cwd = _resolve_cd_target(cd_target, effective_cwd)
+            elif _changes_directory(node):
+                effective_cwd = _UNKNOWN_CWD
     return decisions
+
+
+def _changes_directory(node) -> bool:
+    """True if running node may leave the shell in a directory we do not track.
+
+    Any cd/pushd/popd that runs in the current shell: subshells, substitutions
+    and multi-command pipelines run in their own process and are skipped.
+    """
+    kind = getattr(node, "kind", None)
+    if kind == "command":
+        words = [_get_word_value(w) for w in getattr(node, "words", None) or []]
+        i = 0
+        while i < len(words) and "=" in words[i] and not words[i].startswith("-"):
+            i += 1
+        return i < len(words) and words[i] in ("cd", "pushd", "popd")
+    if kind in ("subshell", "cmdsub", "procsub", "word", "redirect", "heredoc"):
+        return False
+    if kind == "pipeline" and len(getattr(node, "commands", None) or []) > 1:
+        return False
+    for value in vars(node).values():
+        if isinstance(value, list):
+            if any(hasattr(v, "kind") and _changes_directory(v) for v in value):
+                return True
+        elif hasattr(value, "kind") and _changes_directory(value):
+            return True
+    return False
 
 
 def _analyze_node(node, config: Config, cwd: Path, *, remote: bool = False) -> Decision:
@@ -113,6 +146,9 @@ def _analyze_node(node, config: Config, cwd: Path, *, remote: bool = False) -> D
 
     elif kind == "if":
         decisions = [_analyze_node(node.condition, config, cwd, remote=remote)]
+        # the condition runs first: a cd in it moves the branches
+        if not remote and _changes_directory(node.condition):
+            cwd = _UNKNOWN_CWD
         decisions.append(_analyze_node(node.then_body, config, cwd, remote=remote))
         if hasattr(node, "else_body") and node.else_body:
             decisions.append(_analyze_node(node.else_body, config, cwd, remote=remote))
@@ -121,14 +157,16 @@ def _analyze_node(node, config: Config, cwd: Path, *, remote: bool = False) -> D
         return _combine(decisions)
 
     elif kind in ("while", "until"):
-        decisions = [
-            _analyze_node(node.condition, config, cwd, remote=remote),
-            _analyze_node(node.body, config, cwd, remote=remote),
-        ]
+        decisions = [_analyze_node(node.condition, config, cwd, remote=remote)]
+        if not remote and _changes_directory(node):
+            cwd = _UNKNOWN_CWD  # condition and body alternate
+        decisions.append(_analyze_node(node.body, config, cwd, remote=remote))
         decisions.extend(_analyze_redirects(node, config, cwd, remote=remote))
         return _combine(decisions)
 
     elif kind == "for":
+        if not remote and _changes_directory(node.body):
+            cwd = _UNKNOWN_CWD  # a later iteration starts where the previous one ended
         decisions = [_analyze_node(node.body, config, cwd, remote=remote)]
         # Check iteration words for cmdsubs
         for word in getattr(node, "words", None) or []:
@@ -137,6 +175,8 @@ def _analyze_node(node, config: Config, cwd: Path, *, remote: bool = False) -> D
         return _combine(decisions)
 
     elif kind == "for-arith":
+        if not remote and _changes_directory(node.body):
+            cwd = _UNKNOWN_CWD  # a later iteration starts where the previous one ended
         decisions = [_analyze_node(node.body, config, cwd, remote=remote)]
         # Check init/cond/incr expressions for cmdsubs (stored as raw strings)
         for expr in (node.init, node.cond, node.incr):
@@ -148,6 +188,8 @@ def _analyze_node(node, config: Config, cwd: Path, *, remote: bool = False) -> D
         return _combine(decisions)
 
     elif kind == "select":
+        if not remote and _changes_directory(node.body):
+            cwd = _UNKNOWN_CWD  # a later iteration starts where the previous one ended
         decisions = [_analyze_node(node.body, config, cwd, remote=remote)]
         # Check selection words for cmdsubs
         for word in getattr(node, "words", None) or []:
